@@ -71,6 +71,14 @@ Inductive site :=
 Definition retry_site (s : site) : bool :=
   match s with SPaillierNonce => true | _ => false end.
 
+(* draws whose value the protocol discards by design: entry 0 of a dealt column is sampled with
+   the column and then overwritten by the secret (resp. by 0) — kw DealAndRevealDealerFunc *)
+Definition discarded_site (s : site) (i : N) : bool :=
+  match s with
+  | SCoeff | SBlindCoeff | SZeroCoeff | SNextCoeff => N.eqb i 0
+  | _ => false
+  end.
+
 Record draw := mkDraw { d_site : site; d_idx : N; d_kind : kind; d_len : N }.
 
 Definition slice (off len : nat) (t : bytes) : bytes := firstn len (skipn off t).
@@ -166,7 +174,8 @@ Inductive protocol :=
 | PDkls23Bbot | PDkls23Softspoken | PLindell22 | PBoldyreva
 | PLindell17Primary | PLindell17Secondary
 | POtSender | POtReceiver       (* pkg/ot/base/ecbbot on its own: the choice bits are an input *)
-| PVoleAlice | PVoleBob.        (* pkg/mpc/rvole/bbot on its own: Bob draws his choice bits beta *)
+| PVoleAlice | PVoleBob
+| POtExtReceiver | POtExtSender.  (* pkg/ot/extension/softspoken on its own: the receiver draws the sigma mask bits *)        (* pkg/mpc/rvole/bbot on its own: Bob draws his choice bits beta *)
 
 (* what the specification depends on *)
 Record cfg := mkCfg {
@@ -222,6 +231,7 @@ Definition draws (p : protocol) (c : cfg) (round : N) : list draw :=
   | PVoleAlice, 1 => [sc c SOtSenderKey 0]
   | PVoleAlice, 3 => rep (c_rho c) (sc c SVoleAHat 0)
   | PVoleBob, 2 => ot_receiver c 0
+  | POtExtReceiver, 1 => [raw SExtSeed 0 16]
   | _, _ => []
   end.
 
